@@ -249,8 +249,11 @@ func checkC10(e *core.Env) {
 				wantMD["cred-only"] = []string{"c"}
 				sc.ExtraOpts = []grpc.CallOption{grpc.PerRPCCredentials(&testCreds{md: map[string]string{"authorization": "cred-token", "cred-only": "c"}})}
 			}
+			var keptCC context.Context
 			run.OnHandler = func(hctx context.Context, rr *Run, st grpc.ServerStream) {
 				probeCtx(&probe, hctx, rr.Ctx, wantMD, kind.Method(), outerSTS, outerPeer)
+				// server-side code may keep the caller's context for work that outlives the handler
+				keptCC = inprocgrpc.ClientContext(hctx)
 				// handler-side mutation of the metadata must not reach the caller
 				if md, ok := metadata.FromIncomingContext(hctx); ok {
 					for k := range md {
@@ -265,7 +268,18 @@ func checkC10(e *core.Env) {
 				}
 			}
 			ok, _ := run.Exec(inner.CC, caller, watchdog)
+			// the context the accessor handed out is the caller's: it lives and ends with the caller's context,
+			// not with the handler or the call
+			if ok && keptCC != nil && run.Ctx.Err() == nil && caller.Err() == nil {
+				e.Count("clientctx_lifetime_checks", 1)
+				if err := keptCC.Err(); err != nil {
+					probe.problems = append(probe.problems, [2]string{"clientctx-ended-early", fmt.Sprintf("the context obtained from ClientContext(...) inside the handler is over (%v) once the call has completed, although the caller's context is still alive", err)})
+				}
+			}
 			run.Cancel()
+			if ok && keptCC != nil && run.Ctx.Err() != nil && keptCC.Err() == nil {
+				probe.problems = append(probe.problems, [2]string{"clientctx-cancellation-lost", "the caller's context was cancelled; the context obtained from ClientContext(...) inside the handler is not"})
+			}
 			inner.Svc.Forget(run)
 			if !ok {
 				run.ReleaseAll()
